@@ -55,6 +55,8 @@ def detuple_hist(h):
             return ("RGet", to_tuple(r[1]))
         if k == "RPropfind":
             return ("RPropfind", to_tuple(r[1]), r[2])
+        if k == "RQuery":
+            return ("RQuery", to_tuple(r[1]), r[2], None if r[3] is None else tuple(r[3]))
         return ("RMultiget", to_tuple(r[1]), r[2], [to_tuple(h) for h in r[3]])
 
     def fix_body(b):
